@@ -6,6 +6,7 @@
 #include <foonathan/memory/allocator_storage.hpp>
 #include <foonathan/memory/memory_pool.hpp>
 #include <foonathan/memory/new_allocator.hpp>
+#include <foonathan/memory/virtual_memory.hpp>
 #include <foonathan/memory/debugging.hpp>
 #include <foonathan/memory/detail/lowlevel_allocator.hpp>
 
@@ -27,6 +28,9 @@ namespace ss
             int           occupancy = 0;
             unsigned long calls     = 0;
             bool          need_lock = true;
+            int           fail_in   = 0; // the throwing allocation functions fail (throw) at this call, counted down
+            unsigned      failed    = 0;
+            int           fail_again = 0;
         };
 
         // Stateful allocator that knows when two tasks are inside it at once and whether the mutex is held.
@@ -39,12 +43,25 @@ namespace ss
             void* allocate_node(std::size_t size, std::size_t)
             {
                 In in(*s_, "allocate_node");
+                may_fail();
                 return ::operator new(size);
             }
             void* allocate_array(std::size_t count, std::size_t size, std::size_t)
             {
                 In in(*s_, "allocate_array");
+                may_fail();
                 return ::operator new(count * size);
+            }
+            // the wrapped allocator runs out of memory at a drawn call: the exception leaves through the wrapper,
+            // which must not keep the mutex
+            void may_fail()
+            {
+                if (s_->fail_in > 0 && --s_->fail_in == 0)
+                {
+                    ++s_->failed;
+                    s_->fail_in = s_->fail_again;
+                    throw std::bad_alloc();
+                }
             }
             void deallocate_node(void* p, std::size_t, std::size_t) noexcept
             {
@@ -390,7 +407,14 @@ namespace ss
                         t.p = t.array ? a.try_allocate_array(t.count, t.size, 8) :
                                         a.try_allocate_node(t.size, 8);
                     else
-                        t.p = t.array ? a.allocate_array(t.count, t.size, 8) : a.allocate_node(t.size, 8);
+                        try
+                        {
+                            t.p = t.array ? a.allocate_array(t.count, t.size, 8) : a.allocate_node(t.size, 8);
+                        }
+                        catch (const std::bad_alloc&)
+                        {
+                            t.p = nullptr; // the wrapped allocator had no memory (drawn)
+                        }
                     if (t.p)
                         mine.push_back(t);
                 }
@@ -410,14 +434,28 @@ namespace ss
                 {
                     // the lock() proxy: use it, move it, let the moved-to proxy release
                     auto proxy = a.lock();
-                    void* p    = proxy->allocate_node(16, 8);
+                    void* p    = nullptr;
+                    try
+                    {
+                        p = proxy->allocate_node(16, 8);
+                    }
+                    catch (const std::bad_alloc&)
+                    {
+                        continue; // (the proxy gives the mutex back on its way out)
+                    }
                     sim_yield("proxy.held");
                     auto moved = std::move(proxy);
                     moved->deallocate_node(p, 16, 8);
                     if (o.arg(0) % 2)
                     {
-                        void* q = (*moved).allocate_node(24, 8);
-                        (*moved).deallocate_node(q, 24, 8);
+                        try
+                        {
+                            void* q = (*moved).allocate_node(24, 8);
+                            (*moved).deallocate_node(q, 24, 8);
+                        }
+                        catch (const std::bad_alloc&)
+                        {
+                        }
                     }
                 }
             }
@@ -456,7 +494,15 @@ namespace ss
         heap.begin_op(0);
         using EmptyStateful = fm::allocator_storage<fm::direct_storage<EmptyStatefulProbe>, SimMutex>;
         std::unique_ptr<EmptyStateful> emptystateful;
-        switch (variant % 13)
+        {
+            int v = variant % 14;
+            if (v == 0 || v == 1 || v == 2 || v == 12)
+            {
+                st.fail_in    = int(plan.num("probe_fail", 0));
+                st.fail_again = int(plan.num("probe_fail_again", 0));
+            }
+        }
+        switch (variant % 14)
         {
         case 5:
             EmptyStatefulProbe::state() = &st;
@@ -555,7 +601,7 @@ namespace ss
             v11.reset();
             ThrowingMutex::countdown() = 0;
             ThrowingMutex::thrown()    = 0;
-            int v = variant % 13;
+            int v = variant % 14;
             if (v == 8)
                 v8.reset(new V8(TrackedSL(TsTracker{&st}, StatelessProbe{})));
             else if (v == 9)
@@ -630,6 +676,7 @@ namespace ss
         }
         case 6:
         case 7:
+        case 13:
         {
             // stateless low-level allocators used concurrently as they are: variant 6 the library's
             // lowlevel_allocator template (leak counter = an atomic every operation of which is a scheduling
@@ -639,7 +686,10 @@ namespace ss
             shadow.reset();
             g_upstream_hook     = [](const char* site) { sim_yield(site); };
             g_new_handler_calls = 0;
-            const bool use_new  = variant % 13 == 7;
+            const bool use_new  = variant % 14 == 7;
+            const bool use_vm   = variant % 14 == 13; // virtual_memory_allocator: mmap, mprotect, munmap are the points
+            static fm::allocator_storage<fm::direct_storage<fm::virtual_memory_allocator>, SimMutex> ts_vm{
+                fm::virtual_memory_allocator{}};
             static fm::allocator_storage<fm::direct_storage<SimLowLevel>, SimMutex>     ts_ll{SimLowLevel{}};
             static fm::allocator_storage<fm::direct_storage<fm::new_allocator>, SimMutex> ts_new{fm::new_allocator{}};
             if (use_new)
@@ -651,7 +701,7 @@ namespace ss
                     });
             for (int t = 0; t < ntasks; ++t)
                 sched.spawn(
-                    [&, t, use_new]
+                    [&, t, use_new, use_vm]
                     {
                         struct Mine
                         {
@@ -665,7 +715,9 @@ namespace ss
                             mine.erase(mine.begin() + (long)i);
                             shadow.check(*shadow.find(m.p), "C13,C01", "before release");
                             shadow.take(m.p);
-                            if (use_new)
+                            if (use_vm)
+                                ts_vm.deallocate_node(m.p, m.size, 8);
+                            else if (use_new)
                                 ts_new.deallocate_node(m.p, m.size, 8);
                             else
                                 ts_ll.deallocate_node(m.p, m.size, 8);
@@ -676,13 +728,16 @@ namespace ss
                             {
                                 if (o.kind == "n" || o.kind == "a" || o.kind == "lk")
                                 {
-                                    auto size = 8 + std::size_t(o.arg(1)) % 100;
+                                    auto size = use_vm ? 1 + std::size_t(o.arg(1)) * 97 % 9000 :
+                                                         8 + std::size_t(o.arg(1)) % 100;
                                     if (use_new && o.kind == "lk")
                                         SimHeap::get().set_exhausted(true); // from now on until the handler ran
                                     void* p = nullptr;
                                     try
                                     {
-                                        p = use_new ? ts_new.allocate_node(size, 8) : ts_ll.allocate_node(size, 8);
+                                        p = use_vm  ? ts_vm.allocate_node(size, 8) :
+                                            use_new ? ts_new.allocate_node(size, 8) :
+                                                      ts_ll.allocate_node(size, 8);
                                     }
                                     catch (const std::bad_alloc&)
                                     {
@@ -693,15 +748,15 @@ namespace ss
                                                                                   "its upstream had memory"));
                                         continue;
                                     }
-                                    auto& a = shadow.add("C13,C01", p, size, 8, t, use_new ? sim::OWNER_NEW : 60,
-                                                         0, true);
+                                    auto& a = shadow.add("C13,C01", p, size, 8, t,
+                                                         use_vm ? sim::OWNER_MMAP : use_new ? sim::OWNER_NEW : 60, 0, true);
                                     shadow.fill(a);
                                     mine.push_back({a.p, size});
                                 }
                                 else if (o.kind == "f" && !mine.empty())
                                     release(std::size_t(o.arg(0)) % mine.size());
                                 else if (o.kind == "mx")
-                                    (void)(use_new ? ts_new.max_node_size() : ts_ll.max_node_size());
+                                    (void)(use_vm ? ts_vm.max_node_size() : use_new ? ts_new.max_node_size() : ts_ll.max_node_size());
                             }
                             while (!mine.empty())
                                 release(mine.size() - 1);
@@ -770,14 +825,14 @@ namespace ss
         sched.run();
         simulate_std_mutexes_in(nullptr, nullptr);
         g_upstream_hook = nullptr;
-        if (variant % 13 == 7)
+        if (variant % 14 == 7)
         {
             std::set_new_handler(nullptr);
             heap.set_exhausted(false);
             stats().hit("reach.new_handler_calls", g_new_handler_calls);
         }
         std::string leak_problem;
-        if (variant % 13 == 6 && !sched.deadlock && !sched.budget_exhausted)
+        if (variant % 14 == 6 && !sched.deadlock && !sched.budget_exhausted)
         {
             // everything was released: the process-wide net of this allocator type must be zero. Ending the last
             // counter object reports a non-zero net to the leak handler.
@@ -810,7 +865,9 @@ namespace ss
         hash.add(st.calls);
         stats().hit("reach.scheduling_decisions", sched.steps);
         stats().hit("reach.preemptions", sched.preemptions);
-        stats().hit("sut.ts_variant_" + std::to_string(variant % 13));
+        stats().hit("sut.ts_variant_" + std::to_string(variant % 14));
+        if (st.failed)
+            stats().hit("fault.wrapped_allocator_threw", st.failed);
         res.nontrivial = sched.preemptions >= 2;
         auto bad = [&](const char* cls, const std::string& facts)
         {
@@ -844,13 +901,23 @@ namespace ss
                 cls = "mutex_protocol";
             bad(cls.c_str(), sched.problem);
         }
-        else if (variant % 13 == 3 && SimMutex::locks_taken() != 0)
+        else if (variant % 14 == 3 && SimMutex::locks_taken() != 0)
             bad("stateless_locked", "a stateless allocator was wrapped with a real mutex ("
                                         + std::to_string(SimMutex::locks_taken()) + " lock operations)");
-        else if ((variant % 13 == 6 || variant % 13 == 7) && SimMutex::locks_taken() != 0)
+        else if ((variant % 14 == 6 || variant % 14 == 7 || variant % 14 == 13) && SimMutex::locks_taken() != 0)
             bad("stateless_locked", "a stateless low-level allocator was wrapped with a real mutex");
-        else if ((variant % 13 < 3 || variant % 13 == 5 || variant % 13 >= 8) && st.occupancy != 0)
+        else if ((variant % 14 < 3 || variant % 14 == 5 || variant % 14 >= 8) && st.occupancy != 0)
             bad("overlap", "occupancy counter not back to zero");
+        if (!res.violated)
+        {
+            // what the simulated operating system had to say about the calls it received (under this schedule)
+            auto pending = heap.take_pending();
+            if (!pending.empty() && pending.compare(0, 8, "HARNESS:") != 0)
+            {
+                bad("upstream_protocol", pending);
+                res.v.prop = "C13,C05";
+            }
+        }
         if (res.fatal)
             return; // parked threads reference the objects above: leak them
         if (res.violated && (sched.deadlock || sched.budget_exhausted))
